@@ -161,8 +161,22 @@ GLOBALS = {"fn": None}     # name -> global variable record of another unit
 class Ptr:
     """address of a variable of some frame (`&res` handed to a helper that fills the record in, `&sp` handed to a reader that
     advances the caller's cursor)"""
-    def __init__(self, env, d, t):
-        self.env, self.d, self.t = env, d, t
+    def __init__(self, env, d, t, prefix=""):
+        self.env, self.d, self.t, self.prefix = env, d, t, prefix
+
+    def __eq__(self, other):
+        return isinstance(other, Ptr) and self.env is other.env and self.d == other.d and self.prefix == other.prefix
+
+    def __hash__(self):
+        return hash((id(self.env), self.d, self.prefix))
+
+
+class Heap(dict):
+    """cells handed out by calloc / malloc: id -> record (flattened member paths)"""
+    def new(self):
+        k = "cell%d" % (len(self) + 1)
+        self[k] = {}
+        return Ptr(self, k, None)
 
 
 class CPtr:
@@ -256,18 +270,35 @@ class Folder:
         if n is not None and n.get("k") == "MemberExpr":
             names = []
             x = n
+            arrow_base = None
+            arrow_rec = None
             while x is not None and x.get("k") == "MemberExpr":
                 if x.get("n"):
                     names.append(x["n"])
+                was_arrow = x.get("arrow")
+                cur_rec = x.get("rec")
                 x = strip(x["c"][0]) if x.get("c") else None
                 while x is not None and x.get("k") in CASTS and x.get("c"):
                     x = strip(x["c"][0])
+                if was_arrow:
+                    arrow_base = x
+                    arrow_rec = cur_rec
+                    break
+            if arrow_base is not None:
+                # p->a.b : the pointer is whatever the base expression evaluates to (a variable, another member, a call)
+                pv = self.ev(arrow_base)
+                if isinstance(pv, Ptr):
+                    path = ".".join(reversed(names))
+                    if arrow_rec is not None:
+                        return (pv, path, ("rec", arrow_rec, pv.prefix))
+                    return (pv, (pv.prefix + "." + path) if pv.prefix else path, pv.t if not pv.prefix else None)
+                raise NotConst("member through a non-pointer")
             if x is not None and x.get("k") == "DeclRefExpr" and x.get("dk") in ("var", "parm"):
                 pv = self.env.get(x["d"])
                 if isinstance(pv, Ptr):
-                    return (pv, ".".join(reversed(names)), pv.t)
-                if not base_arrow(n):
-                    return (x["d"], ".".join(reversed(names)), x.get("t"))
+                    path = ".".join(reversed(names))
+                    return (pv, (pv.prefix + "." + path) if pv.prefix else path, pv.t if not pv.prefix else None)
+                return (x["d"], ".".join(reversed(names)), x.get("t"))
         raise NotConst("lvalue %s" % (n0.get("k") if n0 else None))
 
     def load(self, key):
@@ -282,8 +313,18 @@ class Folder:
         rec = d.env.get(d.d) if isinstance(d, Ptr) else self.env.get(d)
         if not isinstance(rec, dict):
             raise NotConst("member of a value that is not a record")
+        if isinstance(t, tuple) and t[2]:
+            # a pointer into a record (the atom inside a node): work on that part
+            pre = t[2] + "."
+            sub = {k2[len(pre):]: v2 for k2, v2 in rec.items() if k2.startswith(pre)}
+            frame = {"__sub__": sub}
+            return self.load((Ptr(frame, "__sub__", None), path, ("rec", t[1], "")))
         if path in rec:
             return rec[path]
+        if t is None:
+            # a heap cell (no layout known): a sub-record is what is stored under the path, an unwritten member reads 0
+            sub = {k2[len(path) + 1:]: v2 for k2, v2 in rec.items() if k2.startswith(path + ".")}
+            return sub if sub else 0
         # a union view (the packed word) or a member that was never written: assemble it from the leaves stored so far
         lay = self.layout(t)
         if lay is not None and path not in lay and any(k2.startswith(path + ".") for k2 in lay):
@@ -338,6 +379,16 @@ class Folder:
         rec = d.env.setdefault(d.d, {}) if isinstance(d, Ptr) else self.env.setdefault(d, {})
         if not isinstance(rec, dict):
             raise NotConst("member of a value that is not a record")
+        if isinstance(t, tuple) and t[2]:
+            pre = t[2] + "."
+            sub = {k2[len(pre):]: v2 for k2, v2 in rec.items() if k2.startswith(pre)}
+            frame = {"__sub__": sub}
+            self.store((Ptr(frame, "__sub__", None), path, ("rec", t[1], "")), v)
+            for k2 in [k3 for k3 in rec if k3.startswith(pre)]:
+                del rec[k2]
+            for k2, v2 in frame["__sub__"].items():
+                rec[pre + k2] = v2
+            return
         lay = self.layout(t)
         if lay is not None and path in lay:
             # writing a member replaces the bits it covers, whatever view they were stored through
@@ -397,9 +448,13 @@ class Folder:
 
     def layout(self, t):
         if t is None:
+            self._cur_sgn = None
             return None
-        ty = self.types[t]
-        rid = ty.get("rec")
+        if isinstance(t, tuple):
+            rid = t[1]
+        else:
+            ty = self.types[t]
+            rid = ty.get("rec")
         if rid is None:
             return None
         if rid not in self._lay:
@@ -444,6 +499,17 @@ class Folder:
             if n.get("ck") == "ToVoid":
                 # (void)sizeof(...) of an assert: nothing to evaluate
                 return 0
+            if n.get("ck") == "ArrayToPointerDecay":
+                inner = strip(n["c"][0])
+                if inner is not None and inner.get("k") == "MemberExpr":
+                    try:
+                        key = self.lv(inner)
+                    except NotConst:
+                        key = None
+                    if isinstance(key, tuple) and isinstance(key[0], Ptr):
+                        have = key[0].env.get(key[0].d, {})
+                        if not isinstance(have.get(key[1]), list):
+                            return Ptr(key[0].env, key[0].d, None, prefix=key[1])
             v = self.ev(n["c"][0])
             if isinstance(v, list) and n.get("ck") == "ArrayToPointerDecay":
                 return CPtr(v, 0)
@@ -675,8 +741,10 @@ class Folder:
             raise NotConst("pointer arithmetic %s" % op)
         if isinstance(a, Ptr) or isinstance(b, Ptr):
             other = b if isinstance(a, Ptr) else a
-            if op in ("==", "!=") and other == 0:
+            if op in ("==", "!=") and isinstance(other, int) and other == 0:
                 return int(op == "!=")
+            if op in ("==", "!=") and isinstance(a, Ptr) and isinstance(b, Ptr):
+                return int((a == b) == (op == "=="))
             raise NotConst("pointer arithmetic")
         if isinstance(a, Aff) or isinstance(b, Aff):
             return self.arith_aff(op, a, b)
